@@ -237,6 +237,23 @@ Definition join_scalars (parts : list scalar) (sep : str) : str := join sep (map
 Definition replace_dict (s : str) (items : list (scalar * scalar)) (cnt : Z) : str :=
   fold_left (fun acc kv => str_replace acc (str_of (fst kv)) (str_of (snd kv)) cnt) items s.
 
+(* join and replace(dict) convert non-strings with the `str` function VISIBLE IN THE CALLING CONTEXT (the
+   injected Delegate('str')), in every spelling.  The model is parameterised by that conversion; [conv_host]
+   is the host override the harness registers in a child context (null -> "", true/false -> yes/no). *)
+Definition join_with (f : scalar -> str) (parts : list scalar) (sep : str) : str := join sep (map f parts).
+Definition replace_dict_with (f : scalar -> str) (s : str) (items : list (scalar * scalar)) (cnt : Z) : str :=
+  fold_left (fun acc kv => str_replace acc (f (fst kv)) (f (snd kv)) cnt) items s.
+
+Definition host_str_of (v : scalar) : str :=
+  match v with
+  | SNull => []
+  | SBool true => [121; 101; 115]
+  | SBool false => [110; 111]
+  | SInt z => dec z
+  | SStr s => s
+  end.
+Definition conv (host : bool) : scalar -> str := if host then host_str_of else str_of.
+
 (* ---- the rest ---------------------------------------------------------------------------- *)
 Definition starts_with (s : str) (ps : list str) : bool := existsb (fun p => prefixb p s) ps.
 Definition ends_with (s : str) (ps : list str) : bool := existsb (fun p => prefixb (rev p) (rev s)) ps.
@@ -357,7 +374,10 @@ Inductive call :=
 | KHex (n : Z)
 | KIsString (v : scalar)
 | KIsRegex (v : option scalar)
-| KEscapeRegex (s : str).
+| KEscapeRegex (s : str)
+| KJoinConv (host : bool) (parts : list scalar) (sep : str)
+| KReplaceDictConv (host : bool) (s : str) (items : list (scalar * scalar)) (cnt : Z)
+| KStrConv (host : bool) (v : scalar).
 
 Inductive res :=
 | RNull
@@ -403,6 +423,9 @@ Definition eval (c : call) : res :=
   | KIsString v => RBool (is_string v)
   | KIsRegex v => RBool (is_regex v)
   | KEscapeRegex s => RStr (escape_regex s)
+  | KJoinConv host parts sep => RStr (join_with (conv host) parts sep)
+  | KReplaceDictConv host s items cnt => RStr (replace_dict_with (conv host) s items cnt)
+  | KStrConv host v => RStr (conv host v)
   end.
 
 Definition res_eqb (a b : res) : bool :=
